@@ -2,12 +2,14 @@ package main
 
 import (
 	"fmt"
+	"reflect"
 	"sort"
 	"strconv"
 	"strings"
 	"sync"
 	"sync/atomic"
 	"time"
+	"unsafe"
 
 	"verifharness/hx"
 
@@ -20,7 +22,7 @@ type monitor interface {
 	value() int
 	waiters() int
 	// call returns the function executing op on the real object; res receives PopOrWait/Pop results
-	call(op string, arg int, res *[]byte) func()
+	call(op string, arg int, res *[]byte, cb *[]byte) func()
 	ops() []string
 }
 
@@ -42,7 +44,7 @@ func (m *counterMon) waiters() int { return condWaiters(m.ci) + condWaiters(m.cd
 func (m *counterMon) ops() []string {
 	return []string{"add", "add", "set", "below", "below", "above", "above"}
 }
-func (m *counterMon) call(op string, arg int, _ *[]byte) func() {
+func (m *counterMon) call(op string, arg int, _ *[]byte, _ *[]byte) func() {
 	switch op {
 	case "add":
 		return func() { m.c.Update(arg) }
@@ -83,7 +85,7 @@ func (m *stackMon) waiters() int { return condWaiters(m.ca) + condWaiters(m.cr) 
 func (m *stackMon) ops() []string {
 	return []string{"add", "add", "add", "trypop", "poporwait", "poporwait", "below", "above", "shutdown"}
 }
-func (m *stackMon) call(op string, arg int, res *[]byte) func() {
+func (m *stackMon) call(op string, arg int, res *[]byte, cb *[]byte) func() {
 	switch op {
 	case "add":
 		x := m.next
@@ -97,7 +99,11 @@ func (m *stackMon) call(op string, arg int, res *[]byte) func() {
 		}
 	case "poporwait":
 		return func() {
-			_, ok := m.s.PopOrWait(func() bool { return true })
+			_, ok := m.s.PopOrWait(func() bool {
+				*cb = append(*cb, '1') // the answers are part of the observation the model has to explain
+
+				return true
+			})
 			*res = append(*res, b01(ok))
 		}
 	case "below":
@@ -128,6 +134,7 @@ type wmWorld struct {
 	actors  []*actor
 	pending []*arrival
 	res     [][]byte
+	cb      [][]byte // answers given by each goroutine's PopOrWait wait condition
 	blocked bool
 	dead    bool
 }
@@ -147,14 +154,18 @@ func mustWait(op string, thr, v int) bool {
 
 func (w *wmWorld) obs() string {
 	rs := make([]string, len(w.actors))
+	cs := make([]string, len(w.actors))
 	for i := range w.actors {
-		rs[i] = "-"
+		rs[i], cs[i] = "-", "-"
 		if len(w.res[i]) > 0 {
 			rs[i] = string(w.res[i])
 		}
+		if len(w.cb[i]) > 0 {
+			cs[i] = string(w.cb[i])
+		}
 	}
 
-	return fmt.Sprintf("%s %d %s", statuses(w.actors), w.m.value(), strings.Join(rs, " "))
+	return fmt.Sprintf("%s %d %s %s", statuses(w.actors), w.m.value(), strings.Join(rs, " "), strings.Join(cs, " "))
 }
 
 func opLine(a arrival) string {
@@ -169,7 +180,7 @@ func opLine(a arrival) string {
 func (w *wmWorld) arrive(a arrival) string {
 	arg, _ := strconv.Atoi(a.arg)
 	before := w.m.value()
-	w.actors[a.t].call(w.m.call(a.op, arg, &w.res[a.t]))
+	w.actors[a.t].call(w.m.call(a.op, arg, &w.res[a.t], &w.cb[a.t]))
 	aa := a
 	w.pending[a.t] = &aa
 	api := w.m.kind() + "." + a.op
@@ -231,7 +242,7 @@ func randomWM(r *hx.Run, rng *hx.Rng, sub uint64) {
 		m = newStackMon(v0)
 	}
 	r.Case(sub)
-	w := &wmWorld{r: r, m: m, pending: make([]*arrival, n), res: make([][]byte, n)}
+	w := &wmWorld{r: r, m: m, pending: make([]*arrival, n), res: make([][]byte, n), cb: make([][]byte, n)}
 	for i := 0; i < n; i++ {
 		w.actors = append(w.actors, newActor())
 	}
@@ -248,6 +259,17 @@ func randomWM(r *hx.Run, rng *hx.Rng, sub uint64) {
 		}
 		if len(idle) == 0 {
 			break
+		}
+		if m.kind() == "stack" && len(idle) >= 2 && m.value() == 0 && rng.Chance(1, 6) {
+			// SignalShutdown arriving while PopOrWait is inside its wait-condition callback
+			ai := rng.Intn(len(idle))
+			bi := (ai + 1 + rng.Intn(len(idle)-1)) % len(idle)
+			obs := w.arriveGap(idle[ai], idle[bi])
+			r.Line(fmt.Sprintf("wg %d %d | %s", idle[ai], idle[bi], obs), "ok")
+			r.Count("stack-op:shutdown-inside-callback")
+			key = append(key, fmt.Sprintf("%dgap%d", idle[ai], idle[bi]))
+
+			continue
 		}
 		a := arrival{t: hx.Pick(rng, idle), op: hx.Pick(rng, m.ops())}
 		switch a.op {
@@ -281,6 +303,90 @@ func randomWM(r *hx.Run, rng *hx.Rng, sub uint64) {
 		r.Nontrivial(fmt.Sprintf("%s%d/%d:%s", m.kind(), n, v0, strings.Join(key, ",")))
 	}
 	r.Sample(r.CaseLines())
+}
+
+// mutexWaiters reads the number of goroutines queued on a sync.RWMutex's writer mutex (rw.w.state >> 3);
+// -1 when the layout is not the expected one.
+func mutexWaiters(rw *sync.RWMutex) int {
+	wf := reflect.ValueOf(rw).Elem().FieldByName("w")
+	if !wf.IsValid() {
+		return -1
+	}
+	st := wf.FieldByName("state")
+	if !st.IsValid() || st.Kind() != reflect.Int32 {
+		return -1
+	}
+
+	return int(atomic.LoadInt32((*int32)(unsafe.Pointer(st.UnsafeAddr()))) >> 3)
+}
+
+// arriveGap: goroutine a calls PopOrWait on the empty stack; its wait condition, on its first evaluation,
+// lets goroutine b call SignalShutdown, waits until that call has returned or is queued on the stack mutex
+// (bounded), and answers true — it read the shutdown flag before the shutdown.  Later evaluations answer
+// "not shut down" truthfully.  On the code as it is SignalShutdown cannot pass before PopOrWait is registered
+// as a waiter, so PopOrWait is woken, re-evaluates the condition and returns false.
+func (w *wmWorld) arriveGap(a, b int) string {
+	st := w.m.(*stackMon)
+	rw := (*sync.RWMutex)(fieldPtr(st.s, "mutex"))
+	var shut atomic.Bool
+	bDone := make(chan struct{})
+	calls := 0
+	cond := func() bool {
+		calls++
+		if calls > 1 {
+			ans := !shut.Load()
+			w.cb[a] = append(w.cb[a], b01(ans))
+
+			return ans
+		}
+		w.actors[b].call(func() {
+			shut.Store(true)
+			st.s.SignalShutdown()
+			close(bDone)
+		})
+		deadline := time.Now().Add(100 * time.Millisecond)
+	wait:
+		for time.Now().Before(deadline) {
+			select {
+			case <-bDone:
+				break wait
+			default:
+			}
+			if mutexWaiters(rw) > 0 {
+				time.Sleep(200 * time.Microsecond) // queued on the mutex we hold: it cannot pass before our Wait
+
+				break
+			}
+			time.Sleep(20 * time.Microsecond)
+		}
+		w.cb[a] = append(w.cb[a], '1')
+
+		return true
+	}
+	w.actors[a].call(func() {
+		_, ok := st.s.PopOrWait(cond)
+		w.res[a] = append(w.res[a], b01(ok))
+	})
+	pa := arrival{t: a, op: "poporwait"}
+	w.pending[a] = &pa
+	if !settle(w.actors, w.m.waiters) {
+		w.dead = true
+		w.r.Fail("stall", "stack: no quiescence after SignalShutdown inside the PopOrWait wait condition; statuses="+statuses(w.actors),
+			sig("api", "Stack.PopOrWait", "oracle", "stall"))
+	}
+	if w.actors[a].state.Load() == stIdle {
+		w.pending[a] = nil
+	} else if !w.dead {
+		w.blocked = true
+		select {
+		case <-bDone:
+			w.r.Fail("wait-lost-wakeup", fmt.Sprintf("Stack.PopOrWait still sleeps after SignalShutdown returned although the shutdown arrived while its wait condition was being evaluated (the condition answered %s)", string(w.cb[a])),
+				sig("api", "Stack.PopOrWait", "oracle", "shutdown-inside-wait-condition"))
+		default:
+		}
+	}
+
+	return w.obs()
 }
 
 // releaseAll makes every pending wait return (not part of the compared trace) so that no goroutine leaks,
